@@ -150,6 +150,6 @@ pub fn property() -> Property {
         rule: "generated solution sets of 1..6 solutions (7 with a verbatim duplicate) over shared and distinct contracts, shared predicates, overlapping key universes, declared mutations (15% deliberately colliding across solutions), emit leaves computing mutations whose keys can collide with other solutions' declared keys, cross-solution post-state reads; paired with a generated permutation of the solutions. Metamorphic oracle: content address equal, check_set verdict equal, and - if check_set accepts - two-pass verdict (Ok/Err) equal, total gas equal, computed mutations per solution equal (matched by solution value, not position); plus the direct invariant: an accepted set and the set returned by the two-pass check propose at most one value per (contract, key). Non-trivial = >= 2 solutions, a non-identity permutation and two solutions sharing a contract (or a colliding set that must be rejected).",
         assumptions: vec!["which solution an error is attributed to may depend on the order; only Ok vs Err is compared"],
         health: vec![("set.permute", "accepted-by-check_set", 500), ("set.permute", "two-pass-ok", 150), ("set.permute", "slot-collision-rejected", 10)],
-        subs: vec![prop_sub("set.permute", 20_000, 800_000, |_| perm_case(), oracle)],
+        subs: vec![prop_sub("set.permute", 160_000, 1_280_000, |_| perm_case(), oracle)],
     }
 }
